@@ -888,6 +888,10 @@ Handler::ArgResult
       return processArg( detail::ArgumentKey( ai->mArgChar), ai, end);
 
    case detail::ArgListElement::Type::stringArg:
+      // the name that followed the two dashes is a long key, also when it is
+      // only one character long (a specification "v" would be the short key)
+      if (ai->mArgString.length() == 1)
+         return processArg( detail::ArgumentKey( "--" + ai->mArgString), ai, end);
       return processArg( detail::ArgumentKey( ai->mArgString), ai, end);
 
    case detail::ArgListElement::Type::control:
